@@ -156,6 +156,21 @@ func observe(u *qt.Universe, q *quadtree.Quadtree, contents []*qt.P, outcomes ma
 		fail("bound", "Bound() = %v", q.Bound())
 	}
 	fs := filters(u)
+	// results returned into a slice the tree allocated (buf == nil) belong to the caller: they must still hold
+	// what they held after any number of later queries
+	var keptRes, keptSnap []orb.Pointer
+	keptWhat := ""
+	retainRes := func(what string, res []orb.Pointer) {
+		if keptRes != nil {
+			for i := range keptRes {
+				if keptRes[i] != keptSnap[i] {
+					fail("result-overwritten", "the slice returned by %s was rewritten by the later query %s", keptWhat, what)
+					break
+				}
+			}
+		}
+		keptRes, keptSnap, keptWhat = res, append([]orb.Pointer(nil), res...), what
+	}
 	for _, x := range qcX {
 		for _, y := range qcY {
 			pt := orb.Point{x, y}
@@ -237,6 +252,9 @@ func observe(u *qt.Universe, q *quadtree.Quadtree, contents []*qt.P, outcomes ma
 									got = q.KNearestMatching(buf, pt, k, f.f, md)
 								}
 								n++
+								if bi == 0 && len(got) > 0 {
+									retainRes(what, got)
+								}
 								if len(got) != len(cand) {
 									fail("knearest", "%s returned %d pointers, want %d (contents %s)", what, len(got), len(cand), names(contents))
 									return
@@ -290,6 +308,9 @@ func observe(u *qt.Universe, q *quadtree.Quadtree, contents []*qt.P, outcomes ma
 							got = q.InBoundMatching(buf, b, f.f)
 						}
 						n++
+						if bi == 0 && len(got) > 0 {
+							retainRes(what, got)
+						}
 						if len(got) != wn {
 							fail("inbound", "%s returned %d pointers, want %d (contents %s)", what, len(got), wn, names(contents))
 							return
